@@ -53,7 +53,7 @@ fn c10_sanity_cfg() {
     kani::assume(target <= 2);
     let ver: Option<u8> = kani::any();
     unsafe {
-        crate::vsup::VCFG_DYN = crate::vsup::VCfg { mode, target, rdh_version: ver, ..crate::vsup::VCFG0 };
+        crate::vsup::VCFG_DYN.cfg = crate::vsup::VCfg { mode, target, rdh_version: ver, ..crate::vsup::VCFG0 };
     }
     let mut v = RdhCruSanityValidator::<RdhCru>::new_from_config(crate::vsup::vcfg_dyn());
     let b1: [u8; 64] = kani::any();
